@@ -75,6 +75,14 @@ Theorem C16_fact_violating_worlds_get_top_rank : forall n D facts R w phi,
   exists fin Cinf0, R = fin ++ [Cinf0] /\ zrank_of R w = S (length fin) /\ (forall u, kz world fin u <= length fin).
 Proof. exact zocf_fact_violation_top_rank. Qed.
 Print Assumptions C16_fact_violating_worlds_get_top_rank.
+(* ... the worlds below the top rank satisfy every fact, and an unsatisfiable fact list is refused (None = the error) *)
+Theorem C16_worlds_below_top_satisfy_facts : forall n D facts fin Cinf0 w,
+  part_ext n (augment D facts) = Some (fin ++ [Cinf0]) -> zrank_of (fin ++ [Cinf0]) w <= length fin -> forallb (eval w) facts = true.
+Proof. exact finite_rank_satisfies_facts. Qed.
+Theorem C16_unsatisfiable_facts_refused : forall n D facts, facts <> [] -> facts_sat n facts = false -> zocf_partition n None facts D = None.
+Proof. exact zocf_unsat_facts_refused. Qed.
+Print Assumptions C16_worlds_below_top_satisfy_facts. Print Assumptions C16_unsatisfiable_facts_refused.
+Example birds_facts_refused : zocf_partition 4 None [v 1; FNot (v 1)] birds = None. Proof. vm_compute. reflexivity. Qed.
 Example birds_fact_top : (match zocf_partition 4 None [FNot (v 1)] birds with
    Some P => (length P, map (zrank_of P) (filter (fun w => eval w (v 1)) (worlds 4))) | None => (0, []) end) = (2, [2;2;2;2;2;2;2;2]).
 Proof. vm_compute. reflexivity. Qed.
